@@ -133,6 +133,8 @@ func (s *session) project() tf.M {
 	ctx := s.r.Ctx
 	tk, bk := w.App.TSSKeeper, w.App.BandtssKeeper
 	st := tf.M{"h": int(s.r.Height), "now": s.rel(s.r.Time)}
+	tpar := tk.GetParams(ctx)
+	st["par"] = tf.M{"period": int(tpar.SigningPeriod), "create": int(tpar.CreationPeriod)}
 	st["fee"] = int(bk.GetParams(ctx).FeePerSigner.AmountOf("uband").Int64())
 	st["current"] = int(bk.GetCurrentGroup(ctx).GroupID)
 	if tr, ok := bk.GetGroupTransition(ctx); ok {
@@ -302,7 +304,7 @@ func (d *Driver) RunScript(sc tf.Script) {
 	tk, bk := w.App.TSSKeeper, w.App.BandtssKeeper
 	// environment: parameters
 	tp := tk.GetParams(r.Ctx)
-	tp.MaxSigningAttempt, tp.SigningPeriod, tp.CreationPeriod, tp.MaxDESize = 1, Period, CreatePeriod, 50
+	tp.MaxSigningAttempt, tp.SigningPeriod, tp.CreationPeriod, tp.MaxDESize = 1, uint64(tf.Int(sc.C, "period", Period)), uint64(tf.Int(sc.C, "create", CreatePeriod)), 50
 	if err := tk.SetParams(r.Ctx, tp); err != nil {
 		panic(err)
 	}
@@ -514,9 +516,14 @@ func (s *session) apply(step tf.M) bool {
 				sender = pa.Addr.String()
 			}
 		}
+		lx := tf.Int(step, "lx", 0)
 		lim := sdk.NewCoins()
 		if limit > 0 {
-			lim = sdk.NewCoins(sdk.NewInt64Coin("uband", int64(limit)))
+			lim = lim.Add(sdk.NewInt64Coin("uband", int64(limit)))
+		}
+		if lx > 0 {
+			// a coin of another denom in the limit: the fee (uband) can never be paid from it
+			lim = lim.Add(sdk.NewInt64Coin("uxyz", int64(lx)))
 		}
 		msg, err := bandtsstypes.NewMsgRequestSignature(tsstypes.NewTextSignatureOrder([]byte(fmt.Sprintf("m%d", s.deN))), lim, sender)
 		if err != nil {
@@ -526,7 +533,7 @@ func (s *session) apply(step tf.M) bool {
 		if !o.OK() {
 			s.interest = true
 		}
-		s.d.W.Step("Request", tf.M{"p": p, "limit": limit}, oc(o), s.project())
+		s.d.W.Step("Request", tf.M{"p": p, "limit": limit, "lx": lx}, oc(o), s.project())
 	case "SignAll":
 		// k-th waiting signing (that the harness holds keys for)
 		k := tf.Int(step, "k", 1)
@@ -601,6 +608,7 @@ var menu = [][]string{{"a1", "a2"}, {"a2", "a3"}, {"a3", "a4"}, {"a1", "a2", "a3
 // RandomScript for both properties; mode "fees" biases towards paid requests and completions.
 func RandomScript(rng *rand.Rand, mode string) tf.Script {
 	c := tf.M{"fee": []int{0, 1, 2, 3}[rng.Intn(4)], "startWithGroup": rng.Intn(5) != 0,
+		"period": []int{1, 1, 2, 3, 4}[rng.Intn(5)], "create": []int{2, 2, 3, 5}[rng.Intn(4)],
 		"g1": menu[rng.Intn(4)], "g1thr": 1 + rng.Intn(2),
 		"bal": tf.M{"p1": rng.Intn(9), "p2": 5 + rng.Intn(20)}}
 	if mode != "fees" {
@@ -650,7 +658,15 @@ func RandomScript(rng *rand.Rand, mode string) tf.Script {
 		case x < 60:
 			if mode == "fees" {
 				p := []string{"p1", "p1", "p2", "p2", "authority"}[rng.Intn(5)]
-				steps = append(steps, tf.M{"e": "Request", "p": p, "limit": rng.Intn(7)})
+				lx := 0
+				if rng.Intn(4) == 0 {
+					lx = 1 + rng.Intn(9)
+				}
+				lim := rng.Intn(7)
+				if lx > 0 && rng.Intn(2) == 0 {
+					lim = 0 // the limit names only the other denom
+				}
+				steps = append(steps, tf.M{"e": "Request", "p": p, "limit": lim, "lx": lx})
 			} else {
 				// C18 scripts are insensitive to the fee rule (that is C13's business): the authority (free) or a
 				// rich payer with a generous limit; limit 0 is refused by message validation
